@@ -129,8 +129,11 @@ def run (j : Json) : Except String Json := do
       if cp.wf then
         -- theorems find_print_cancel / find_print_denotes / tokenize_print, re-checked on the case
         let hasDots := p.steps.any (fun s => s.isUp || s.isHere)
-        let agrees := printed == path && findResEq specC (find root start path single strict) &&
-          (!(Canon p) || findResEq spec (find root start path single strict)) &&
+        -- (the evaluation theorems need one kind of error only: no stride 0, or non-strict)
+        let uni := p.steps.all Step.wf || !strict
+        let agrees := printed == path &&
+          (!uni || findResEq specC (find root start path single strict)) &&
+          (!uni || !(Canon p) || findResEq spec (find root start path single strict)) &&
           (match tokenize path with
            | .ok ops => ops == (if hasDots then canonicalize (compile p) else compile p)
            | .error _ => false)
